@@ -54,6 +54,10 @@ def r_arc(ctx, fqs, floor=0, derived=True):
             role = 'accessor-store#%d' % k
             kind, why = classify_store(ctx, f, nd, tgt, val, K, mask_in_scope)
             if kind == 'ok':
+                skipped = _rows_skipped(ctx, f, tgt, K)
+                if skipped:
+                    kind, why = 'bad', skipped
+            if kind == 'ok':
                 run.ok('R-ARC', f, role, nd.lineno, why, extracted='%s = %s' % (show(tgt)[:90], show(val)[:90] if val else None))
             elif kind == 'bad':
                 run.refute('R-ARC', f, role, nd.lineno, why, extracted='%s = %s' % (show(tgt)[:120], show(val)[:120] if val else None),
@@ -110,6 +114,50 @@ def _elemify(t):
     return tuple(_elemify(x) for x in t)
 
 
+def _rows_skipped(ctx, f, tgt, K):
+    """the row index of an arc store is the variable of `for u in range(..)`: for 1, 2, 3, 5 rows the range must be exactly
+    0 .. rows-1 (rows = 4^K, len(accessor), len(mask)); text of the witness, or None"""
+    u = tgt[1][2] if tgt[0] == 'sub' and tgt[1][0] == 'sub' else (tgt[2] if tgt[0] == 'sub' else None)
+    if u is None or u[0] != 'iter' or not is_call(u[1], 'builtins.range') or u[1][3] or K is None:
+        return None
+    names = ctx.kinds.acc_names(f)
+
+    def size(x):
+        x0 = strip_int(x)
+        if is_pow4k(x0, K):
+            return True
+        if is_call(x0, 'builtins.len') and len(x0[2]) == 1:
+            b = x0[2][0]
+            if b[0] == 'v' and (b[1] in names or is_mask_name(f, b[1])):
+                return True
+            if acc_alloc(b) is not None:
+                return True
+        return False
+    for N in (1, 2, 3, 5):
+        args = [feval(a, lambda x: N if size(x) else UNKNOWN) for a in u[1][2]]
+        if any(a is UNKNOWN or isinstance(a, bool) or not isinstance(a, int) for a in args) or (len(args) == 3 and args[2] == 0):
+            return None
+        got = sorted(range(*args))
+        if got != list(range(N)):
+            return ('the arc-building loop runs over %s: with %d vertices it visits rows %s, so the rows %s never receive their arcs'
+                    % (show(u[1])[:60], N, got, sorted(set(range(N)) - set(got)) or 'outside the table'))
+    return None
+
+
+def _differ_by_length(a, b):
+    """a - b is a non-zero multiple of some len(..) / .shape[0]: an index written from the end of an array of that length"""
+    from .repair import affine
+    x, y = affine(a), affine(b)
+    if x is None or y is None:
+        return False
+    d = dict(x)
+    for k_, v_ in y.items():
+        d[k_] = d.get(k_, 0) - v_
+    d = {k_: v_ for k_, v_ in d.items() if v_ != 0}
+    return bool(d) and all(k_ != 1 and (is_call(k_, 'builtins.len') or (k_[0] == 'sub' and k_[1][0] == 'attr' and k_[1][2] == 'shape'))
+                           for k_ in d)
+
+
 def classify_store(ctx, f, nd, tgt, val, K, mask_in_scope):
     if val is None:
         return 'ok', 'deletion'
@@ -142,6 +190,8 @@ def classify_store(ctx, f, nd, tgt, val, K, mask_in_scope):
         if v[0] == 'comp' and v[1] == 'list' and len(v[3]) == 1:
             it, conds = v[3][0]
             ol = obtain_latters_of(it)
+            if ol is not None and ol[0] != u and _differ_by_length(u, ol[0]):
+                return 'undecided', 'row %s against obtain_latters(%s): the two differ by a length' % (show(u)[:50], show(ol[0])[:50])
             if ol is None or ol[0] != u:
                 return 'bad', '(iii) row of vertex %s is built from %s, not from obtain_latters of the same vertex' % (show(u), show(it))
             if K is not None and ol[1] != K:
@@ -165,6 +215,12 @@ def classify_store(ctx, f, nd, tgt, val, K, mask_in_scope):
         return 'undecided', 'whole-row store of %s' % show(val)[:100]
     if tgt[0] == 'sub' and tgt[1][0] == 'sub' and ctx.kinds.kind(tgt[1][1], f) == 'ACC':
         u, j, w = tgt[1][2], tgt[2], val
+        # zip(range(len(L)), L) - and zip(range(4), obtain_latters(..)), whose list has four items - pairs position and element as
+        # enumerate(L) does
+        if w[0] == 'iter' and j[0] == 'iter' and j[2] == w[2] and is_call(j[1], 'builtins.range') and len(j[1][2]) == 1 and \
+                (j[1][2][0] == ('call', ('g', 'builtins.len'), (w[1],), ()) or
+                 (j[1][2][0] == ('c', 4) and obtain_latters_of(w[1]) is not None)):
+            j = ('idx', w[1], w[2])
         # (i) enumerate(obtain_latters(u, K))
         if w[0] == 'iter' and j[0] == 'idx' and j[1] == w[1] and j[2] == w[2]:
             ol = obtain_latters_of(w[1])
@@ -220,6 +276,8 @@ def classify_store(ctx, f, nd, tgt, val, K, mask_in_scope):
             return 'bad', '(ii) value %s is not drawn from the latter-map row of the stored vertex %s' % (show(w), show(u))
         if w[0] == 'iter' and j[0] != 'idx':
             ol = obtain_latters_of(w[1])
+            if ol is not None and _differ_by_length(j, ('idx', w[1], w[2])):
+                return 'undecided', 'column %s is the position written from the end' % show(j)[:60]
             if ol is not None:
                 return 'bad', '(i) successor stored in column %s, not in its own position' % show(j)
             if w[1][0] == 'item' or w[1][0] == 'sub':
@@ -1310,7 +1368,10 @@ def r_cascade(ctx):
         m += 1
         w = col[2]
         ok = col[3] == ('c', 4) and u[0] == 'item' and w[0] == 'item' and u[1] == w[1] and u[2] == 0 and w[2] == 1
-        run.check(ok, 'R-CASCADE', f, 'clear#%d:ACC[u, w %% 4]' % m, nd.lineno, 'the pair (u, w) clears column w % 4 of row u',
+        def _comp(x):
+            return x[0] == 'item' and isinstance(x[2], int) and x[2] >= 0
+        wit = col[3] != ('c', 4) or (_comp(u) and _comp(w) and (u[1] != w[1] or (u[2], w[2]) != (0, 1)))
+        _tri(run, ok, wit, 'R-CASCADE', f, 'clear#%d:ACC[u, w %% 4]' % m, nd.lineno, 'the pair (u, w) clears column w % 4 of row u',
                   'the cascade clears %s for the pair: required ACC[u, w %% 4] with (u, w) the iterated pair' % show(tg)[:80],
                   inputs='every cascade step')
         # enqueue under "row became empty"
